@@ -5,9 +5,9 @@ namespace DS.Bloom
 variable {ι : Type} [DecidableEq ι] (P : Params) (hf : ι → Nat → Option (Nat × Nat))
 
 omit [DecidableEq ι] in
-theorem viewOK_fresh_owned' (nb nh seed : Nat) (hnh : 1 ≤ nh) (pr : Bool) :
+theorem viewOK_fresh_owned' (nb nh seed : Nat) (pr : Bool) (hnh : pr = true → KOK (mkOwned nb nh seed)) :
     ViewOK P hf 0 (⟨[], 0, false⟩ : SInfo ι) (mkOwned nb nh seed) ⟨[], pr, 0⟩ := by
-  refine ⟨fun _ => rfl, ?_, fun _ => hnh, ?_, Covers.nil _ _ _ _, ?_, ?_, ?_, ?_, fun _ _ => rfl, ?_⟩
+  refine ⟨fun _ => rfl, ?_, hnh, ?_, Covers.nil _ _ _ _, ?_, ?_, ?_, ?_, fun _ _ => rfl, ?_⟩
   · intro _ h; simp [isMem, mkOwned] at h
   · intro x hx; exact absurd hx (by simp)
   · intro h; exact absurd rfl h
@@ -20,7 +20,7 @@ omit [DecidableEq ι] in
 /-- what a block that carries promises gives to a reader of a standard image -/
 theorem block_for_reader (w : World) (p : PGhost ι) (hg : Good P hf w p) (m : Nat) (b : Block) (hb : w.blocks m = some b)
     (cap nh seed nbs nl : Nat) (hparse : parseImage P b = .full cap nh seed nbs nl) (ht : (p.si (.mem m)).tainted = false) :
-    1 ≤ nh ∧ (nbs = P.dirty ∨ nbs = popCount b.val 256 cap) ∧ Covers hf b.val 256 ⟨cap, nh, seed⟩ (p.si (.mem m)).S ∧
+    (1 ≤ nh ∧ cap < 2 ^ 32) ∧ (nbs = P.dirty ∨ nbs = popCount b.val 256 cap) ∧ Covers hf b.val 256 ⟨cap, nh, seed⟩ (p.si (.mem m)).S ∧
       Hashed hf seed (p.si (.mem m)).S := by
   rcases hg.blk m b hb ht with ⟨_, _, _, he, _⟩ | ⟨cap', nh', seed', nbs', nl', hfull, hk, hcnt, hcov, hhs⟩
   · rw [hparse] at he; cases he
@@ -104,7 +104,7 @@ theorem viewOK_wrap (hP : P.Wire) (w : World) (p : PGhost ι) (hg : Good P hf w 
     · intro h; cases h
     · rw [hoff]; exact hcov
     · intro hM
-      have hpos := popCount_pos_of_covers hf b.val 256 ⟨cap, nh, seed⟩ _ hcov hhs hM hk1 hcap
+      have hpos := popCount_pos_of_covers hf b.val 256 ⟨cap, nh, seed⟩ _ hcov hhs hM hk1.1 hcap
       simp only at hpos
       simp only [Filter.isEmpty, wrapFilter]
       rcases hcnt with h | h
@@ -149,10 +149,16 @@ theorem good_wrap (hP : P.Wire) (w : World) (p : PGhost ι) (hg : Good P hf w p)
       by_cases ht : (p.si (.mem m)).tainted = true
       · exact hg.taintS m ht
       · rcases hg.blk m b hm (by simpa using ht) with ⟨_, _, _, _, hS⟩ | ⟨_, _, _, _, _, hfull, _⟩
-        · exact hS
+        · exact hS.1
         · rw [hp] at hfull; cases hfull
+    -- … and if the image carries promises its capacity is below 2^32
+    have hnb32 : (p.si (.mem m)).tainted = false → nb ≤ 2 ^ 32 - 64 := by
+      intro ht
+      rcases hg.blk m b hm ht with ⟨nb', _, _, he, hS⟩ | ⟨_, _, _, _, _, hfull, _⟩
+      · rw [hp] at he; injection he with e1; rw [e1]; exact hS.2
+      · rw [hp] at hfull; cases hfull
     rw [hS]
-    obtain ⟨_, h1, _, h2, h3, _⟩ : True ∧ nb = (getField b.val 128 32 * 64) % 2 ^ 32 ∧ True ∧ nh = getField b.val 32 16 ∧ seed = getField b.val 64 64 ∧ True := by
+    obtain ⟨_, h1, _, h2, h3, _⟩ : True ∧ nb = capOf P (getField b.val 128 32) ∧ True ∧ nh = getField b.val 32 16 ∧ seed = getField b.val 64 64 ∧ True := by
       simp only [parseImage] at hp
       repeat' split at hp
       all_goals cases hp
@@ -161,32 +167,43 @@ theorem good_wrap (hP : P.Wire) (w : World) (p : PGhost ι) (hg : Good P hf w p)
     · have hnb : nb ≠ 0 := by intro e; simp [badSize, e] at hb'
       have := roundUp64_pos nb hnb
       refine ⟨this.1, this.2, ?_, ?_, ?_⟩
-      · simp only [mkOwned, roundUp64]; rw [h1]; omega
+      · have hnl := getField_lt b.val 128 32
+        have : nb ≤ 2 ^ 38 - 64 := by rw [h1]; unfold capOf; split <;> omega
+        simp only [mkOwned, roundUp64]; omega
       · rw [h2]; exact getField_lt _ _ _
       · rw [h3]; exact getField_lt _ _ _
-    · exact viewOK_fresh_owned' P hf nb nh seed (nh_pos_of_not_bad P _ _ hb') _
+    · apply viewOK_fresh_owned' P hf nb nh seed
+      intro hpr
+      have ht : (p.si (.mem m)).tainted = false := by simpa using hpr
+      have := hnb32 ht
+      exact ⟨nh_pos_of_not_bad P _ _ hb', by simp only [mkOwned, roundUp64]; omega⟩
   | full cap nh seed nbs nl =>
     obtain ⟨hflag, hcapeq, hcap0, hnh, hseed, hnl, hnbs, hlen⟩ := parseImage_full hp
     have hcap : 0 < cap := Nat.pos_of_ne_zero hcap0
     have hfwf : ∀ f : Filter, f.capBits = cap → f.numHashes = nh → f.seed = seed → FWF f := by
       intro f h1 h2 h3
-      refine ⟨by rw [h1]; exact hcap, by rw [h1, hcapeq]; omega, by rw [h1, hcapeq]; exact Nat.mod_lt _ (by decide), ?_, ?_⟩
+      have hnl32 := getField_lt b.val 128 32
+      refine ⟨by rw [h1]; exact hcap, by rw [h1, hcapeq]; exact capOf_mod64 P nl, ?_, ?_, ?_⟩
+      · rw [h1, hcapeq, hnl]; unfold capOf; split <;> omega
       · rw [h2, hnh]; exact getField_lt _ _ _
       · rw [h3, hseed]; exact getField_lt _ _ _
     -- facts about the recorded list, tainted or not
     have hrec : (p.si (.mem m)).tainted = false →
-        1 ≤ nh ∧ (nbs = P.dirty ∨ nbs = popCount b.val 256 cap) ∧ Covers hf b.val 256 ⟨cap, nh, seed⟩ (p.si (.mem m)).S ∧
+        (1 ≤ nh ∧ cap < 2 ^ 32) ∧ (nbs = P.dirty ∨ nbs = popCount b.val 256 cap) ∧ Covers hf b.val 256 ⟨cap, nh, seed⟩ (p.si (.mem m)).S ∧
         Hashed hf seed (p.si (.mem m)).S := block_for_reader P hf w p hg m b hm cap nh seed nbs nl hp
+    by_cases hst : (P.strict && decide (b.len - 32 < nbytesOf P nl)) = true
+    · simp only [opWrap, pstep, hm, hp, hst, if_true]; cases w.filters v <;> exact hg
+    have hst' : (P.strict && decide (b.len - 32 < nbytesOf P nl)) = false := by simpa using hst
     cases k with
     | deser =>
-      by_cases hl : b.len - 32 < (nl * 8) % 2 ^ 32
-      · simp only [opWrap, pstep, hm, hp, hl, if_true]; cases w.filters v <;> exact hg
-      simp only [opWrap, pstep, hm, hp, hl, if_false, setFilter_filters_same, deserFilter]
-      have h8 : cap ≤ 8 * ((nl * 8) % 2 ^ 32) := by rw [hcapeq]; omega
-      have hcopy : ∀ j, j < cap → (getField b.val 256 (8 * ((nl * 8) % 2 ^ 32))).testBit (0 + j) = b.val.testBit (256 + j) := by
+      by_cases hl : b.len - 32 < nbytesOf P nl
+      · simp only [opWrap, pstep, hm, hp, hst', Bool.false_eq_true, if_false]; simp only [hl, if_true]; cases w.filters v <;> exact hg
+      simp only [opWrap, pstep, hm, hp, hst', Bool.false_eq_true, if_false]; simp only [hl, if_false, setFilter_filters_same, deserFilter]
+      have h8 : cap ≤ 8 * nbytesOf P nl := by rw [hcapeq]; exact capOf_le_nbytes P nl
+      have hcopy : ∀ j, j < cap → (getField b.val 256 (8 * nbytesOf P nl)).testBit (0 + j) = b.val.testBit (256 + j) := by
         intro j hj
         rw [Nat.zero_add, testBit_getField]
-        have : j < 8 * ((nl * 8) % 2 ^ 32) := by omega
+        have : j < 8 * nbytesOf P nl := by omega
         simp [this]
       apply good_bind_owned P hf w p hg v _ _ rfl
       · exact hfwf _ rfl rfl rfl
@@ -206,15 +223,15 @@ theorem good_wrap (hP : P.Wire) (w : World) (p : PGhost ι) (hg : Good P hf w p)
         · have ht' : (p.si (.mem m)).tainted = false := by simpa using ht
           obtain ⟨hk1, hcnt, hcov, hhs⟩ := hrec ht'
           rw [ht']
-          have hcovB : Covers hf (getField b.val 256 (8 * ((nl * 8) % 2 ^ 32))) 0 ⟨cap, nh, seed⟩ (p.si (.mem m)).S :=
+          have hcovB : Covers hf (getField b.val 256 (8 * nbytesOf P nl)) 0 ⟨cap, nh, seed⟩ (p.si (.mem m)).S :=
             hcov.mono hcap (fun j hj hb' => by rw [hcopy j hj]; exact hb')
-          have hpcB : popCount (getField b.val 256 (8 * ((nl * 8) % 2 ^ 32))) 0 cap = popCount b.val 256 cap :=
+          have hpcB : popCount (getField b.val 256 (8 * nbytesOf P nl)) 0 cap = popCount b.val 256 cap :=
             popCount_congr _ _ _ _ _ hcopy
           refine ⟨?_, ?_, fun _ => hk1, hhs, hcovB, ?_, ?_, ?_, ?_, ?_, ?_⟩
           · intro h; cases h
           · intro _ h; cases h
           · intro hM
-            have hpos := popCount_pos_of_covers hf b.val 256 ⟨cap, nh, seed⟩ _ hcov hhs hM hk1 hcap
+            have hpos := popCount_pos_of_covers hf b.val 256 ⟨cap, nh, seed⟩ _ hcov hhs hM hk1.1 hcap
             simp only [Filter.isEmpty]
             rcases hcnt with h | h
             · simp [h]
@@ -225,7 +242,7 @@ theorem good_wrap (hP : P.Wire) (w : World) (p : PGhost ι) (hg : Good P hf w p)
             have hne : nbs ≠ P.dirty := by simpa using hd
             rcases hcnt with h | h
             · exact absurd h hne
-            · show nbs = popCount (getField b.val 256 (8 * ((nl * 8) % 2 ^ 32))) 0 cap
+            · show nbs = popCount (getField b.val 256 (8 * nbytesOf P nl)) 0 cap
               rw [hpcB]; exact h
           · intro _ _ h; cases h
           · intro h; cases h
@@ -233,14 +250,14 @@ theorem good_wrap (hP : P.Wire) (w : World) (p : PGhost ι) (hg : Good P hf w p)
           · intro _; exact ⟨hcovB, hhs, fun h => by cases h⟩
     | wrap =>
       by_cases hl : b.len < 32 + cap / 8
-      · simp only [opWrap, pstep, hm, hp, hl, if_true]; cases w.filters v <;> exact hg
-      simp only [opWrap, pstep, hm, hp, hl, if_false, setFilter_filters_same, wrapFilter]
+      · simp only [opWrap, pstep, hm, hp, hst', Bool.false_eq_true, if_false]; simp only [hl, if_true]; cases w.filters v <;> exact hg
+      simp only [opWrap, pstep, hm, hp, hst', Bool.false_eq_true, if_false]; simp only [hl, if_false, setFilter_filters_same, wrapFilter]
       exact good_bind_mem P hf w p hg v m b hm (wrapFilter P m b.val cap nh seed nbs true) rfl _ (hfwf _ rfl rfl rfl)
         (viewOK_wrap P hf hP w p hg m b hm cap nh seed nbs nl hp true) ⟨nbs, nl, hp⟩
     | wwrap =>
       by_cases hl : b.len < 32 + cap / 8
-      · simp only [opWrap, pstep, hm, hp, hl, if_true]; cases w.filters v <;> exact hg
-      simp only [opWrap, pstep, hm, hp, hl, if_false, setFilter_filters_same, wrapFilter]
+      · simp only [opWrap, pstep, hm, hp, hst', Bool.false_eq_true, if_false]; simp only [hl, if_true]; cases w.filters v <;> exact hg
+      simp only [opWrap, pstep, hm, hp, hst', Bool.false_eq_true, if_false]; simp only [hl, if_false, setFilter_filters_same, wrapFilter]
       exact good_bind_mem P hf w p hg v m b hm (wrapFilter P m b.val cap nh seed nbs false) rfl _ (hfwf _ rfl rfl rfl)
         (viewOK_wrap P hf hP w p hg m b hm cap nh seed nbs nl hp false) ⟨nbs, nl, hp⟩
 
